@@ -17,6 +17,7 @@ pub fn lookup(name: &str) -> Option<fn(&str) -> String> {
         "curve" => curve::run,
         "bankops" => bankops::run,
         "hops" => hops::run,
+        "hopsref" => hops::run_ref,
         "prefee" => prefee::run,
         "xrate" => xrate::run,
         "oracle" => oracle::run,
